@@ -290,7 +290,7 @@ func cellStepOf(p CPath, cell Cell) (cellStep, bool) {
 	firstStore := len(occs)
 	var stores []int
 	for i, oc := range occs {
-		if cl, _, ok := cellStore(oc.In); ok && cl == cell {
+		if cl, _, ok := cellStoreView(p.fl.Root, oc.In); ok && cl == cell {
 			stores = append(stores, i)
 			if i < firstStore {
 				firstStore = i
@@ -299,7 +299,7 @@ func cellStepOf(p CPath, cell Cell) (cellStep, bool) {
 	}
 	isLoad := func(v ssa.Value) (int, bool) {
 		v = stripConv(v)
-		cl, ok := cellLoad(v)
+		cl, ok := cellLoadView(p.fl.Root, v)
 		if !ok || cl != cell {
 			return 0, false
 		}
@@ -425,7 +425,7 @@ func scalarCellsOf(op *ssa.Function) []Cell {
 		if !ok {
 			return
 		}
-		cl, ok := cellLoad(v)
+		cl, ok := cellLoadView(op, v)
 		if !ok || seen[cl] {
 			return
 		}
@@ -437,4 +437,57 @@ func scalarCellsOf(op *ssa.Function) []Cell {
 		out = append(out, cl)
 	})
 	return out
+}
+
+
+// cellOfView is cellOf for an address inside op's flattened view: the address may be a field
+// of a helper's receiver or parameter that is, at every splice of the helper, the captured
+// variable or state object (`attempts.begin()` with `attempts` captured by the literal).
+func cellOfView(op *ssa.Function, addr ssa.Value) (Cell, bool) {
+	if cl, ok := cellOf(addr); ok {
+		return cl, true
+	}
+	aps := viewAPs(op, addr)
+	if len(aps) == 0 {
+		return Cell{}, false
+	}
+	var out Cell
+	for i, a := range aps {
+		al, ok := a.Root.(*ssa.Alloc)
+		if !ok {
+			return Cell{}, false
+		}
+		// allocated outside the operation (by the function that starts it)
+		for _, f := range flatOf(op).Funcs() {
+			if al.Parent() == f {
+				return Cell{}, false
+			}
+		}
+		cl := Cell{Obj: al, Sel: a.SelString()}
+		if i > 0 && cl != out {
+			return Cell{}, false
+		}
+		out = cl
+	}
+	return out, true
+}
+
+func cellStoreView(op *ssa.Function, in ssa.Instruction) (Cell, ssa.Value, bool) {
+	st, ok := in.(*ssa.Store)
+	if !ok {
+		return Cell{}, nil, false
+	}
+	cl, ok := cellOfView(op, st.Addr)
+	if !ok {
+		return Cell{}, nil, false
+	}
+	return cl, st.Val, true
+}
+
+func cellLoadView(op *ssa.Function, v ssa.Value) (Cell, bool) {
+	ld, ok := v.(*ssa.UnOp)
+	if !ok || ld.Op != token.MUL {
+		return Cell{}, false
+	}
+	return cellOfView(op, ld.X)
 }
